@@ -21,6 +21,7 @@ import Driver.HtmlDecode
 import Driver.Html
 import Driver.BlockH
 import Driver.InlineH
+import Driver.PipelineH
 import Driver.Pipeline
 
 def dispatch (line : String) : String :=
@@ -47,6 +48,7 @@ def dispatch (line : String) : String :=
   | "html" :: args => Driver.Html.handle args
   | "blockh" :: args => Driver.BlockH.handle args
   | "inlineh" :: args => Driver.InlineH.handle args
+  | "pipelineh" :: args => Driver.PipelineH.handle args
   | "pipeline" :: args => Driver.Pipeline.handle args
   | _ => "bad-stream"
 
